@@ -2,6 +2,7 @@
  *   sort <items>            set_sort        -> ok <return value> <items>
  *   merge <trg> <src>       set_sorted_merge(trg, src) -> ok <trg items> <trg->used <= trg->size ? 1 : 0>
  *   sortk <keys> / mergek <keys> <keys>    the same with items given as position keys k: pos = k/2 + 1, node = k/2, type = k%2 ? TEXT : ELEM
+ *   xplex <expr> / xpparse <expr>          lyxp_expr_parse without / with reparse (see op_xpparse), leakcheck
  * <items> = comma separated `pos:node:type` (type r|e|t), `-` = empty.  Node ids index an array of dummy lyd_node; positions are
  * non-zero so that set_assign_pos() leaves them alone.  xpath.c is included, so the statics are reached without a source hook. */
 #define _GNU_SOURCE
@@ -53,6 +54,40 @@ put_items(const struct lyxp_set *set, int keys)
     }
 }
 
+/* xplex / xpparse: the tokenizer (lyxp_expr_parse without reparse) and tokenizer + reparse_* (grammar check, repeat arrays).
+ *   xplex <expr>     -> ok <n> (<kind>:<pos>:<len>)*            | err Lex
+ *   xpparse <expr>   -> ok <n> (<kind>:<pos>:<len>:<repeat>)*   | err Lex | err Parse
+ * kind = numeric enum lyxp_token, repeat = `-` or the digits of the 0-terminated array of enum lyxp_expr_type in array order. */
+static void
+op_xpparse(const char *id, const char *hex, int reparse)
+{
+    struct lyxp_expr *exp = NULL;
+    size_t len = 0;
+    char *str = vp_unhex(hex, &len);
+    uint32_t i, j;
+
+    if (!str || (strlen(str) != len)) { vp_reply(id, "err BadArg"); free(str); return; }
+    /* expr_len 0 means strlen() to lyxp_expr_parse and the empty string is refused before that: same result */
+    if (lyxp_expr_parse(ctx, str, len, 0, &exp)) { vp_reply(id, "err Lex"); free(str); return; }
+    if (reparse) {
+        lyxp_expr_free(ctx, exp);
+        exp = NULL;
+        if (lyxp_expr_parse(ctx, str, len, 1, &exp)) { vp_reply(id, "err Parse"); free(str); return; }
+    }
+    vp_begin(id, "ok");
+    vp_field_u(exp->used);
+    for (i = 0; i < exp->used; i++) {
+        fprintf(stdout, " %d:%u:%u", (int)exp->tokens[i], exp->tok_pos[i], exp->tok_len[i]);
+        if (!reparse) continue;
+        fputc(':', stdout);
+        if (!exp->repeat || !exp->repeat[i]) { fputc('-', stdout); continue; }
+        for (j = 0; exp->repeat[i][j]; j++) fprintf(stdout, "%d", (int)exp->repeat[i][j]);
+    }
+    vp_end();
+    lyxp_expr_free(ctx, exp);
+    free(str);
+}
+
 int
 main(void)
 {
@@ -83,6 +118,10 @@ main(void)
             if (rc) vp_reply(id, "err Merge");
             else { fprintf(stdout, "%s ok", id); put_items(&trg, keys); fprintf(stdout, " %d", trg.used <= trg.size ? 1 : 0); vp_end(); }
             lyxp_set_free_content(&trg); lyxp_set_free_content(&src);
+        } else if ((!strcmp(op, "xplex") || !strcmp(op, "xpparse")) && r.ntok == 4) {
+            op_xpparse(id, r.tok[3], op[2] == 'p');
+        } else if (!strcmp(op, "leakcheck")) {
+            vp_reply(id, "ok %d", VP_LEAKCHECK());          /* implementation only: 0 = nothing leaked so far */
         } else {
             vp_reply(id, "err BadOp");
         }
